@@ -128,6 +128,19 @@ class Gen:
     def _gen_descr_muts(self, d, nmax=2):
         muts = []
         tmp = copy.deepcopy(d)
+        # indexed attributes (C11): alert signal -> signalled condition, alert condition -> source metrics
+        if d.NODETYPE.localname == 'AlertSignalDescriptor' and self.rng.random() < 0.5:
+            conds = self._descr_candidates(lambda x: x.is_alert_condition_descriptor and x.parent_handle == d.parent_handle)
+            if conds:
+                v = self.rng.choice(conds).Handle
+                muts.append([['ConditionSignaled'], v])
+                tmp.ConditionSignaled = v
+        if d.is_alert_condition_descriptor and self.rng.random() < 0.5:
+            mets = self._descr_candidates(lambda x: x.is_metric_descriptor)
+            if mets:
+                v = [x.Handle for x in self.rng.sample(mets, self.rng.randint(0, min(3, len(mets))))]
+                muts.append([['Source'], v])
+                tmp.Source = list(v)
         for _ in range(self.rng.randint(1, nmax)):
             for _try in range(6):
                 mut = V.gen_mutation(tmp, self.rng)
